@@ -112,6 +112,10 @@ func genC07Maps(level int) []*MapScen {
 				add(&MapScen{Rel: RelSD, NKeys: 3, Init: []int{1, 1, 0}, Table: TChain2, FillFirst: ff, Threads: [][]MIn{{opRange}, {on(w, 2)}}})
 			}
 		}
+		// very long chains (every key of the container in one bucket chain)
+		add(&MapScen{Rel: RelSD, NKeys: 3, Init: []int{1, 1, 0}, Table: TLongChain, Threads: [][]MIn{{opRange}}})
+		add(&MapScen{Rel: RelSD, NKeys: 3, Init: []int{1, 1, 0}, Table: TLongChain, Threads: [][]MIn{{opRange}, {on(opStore, 2)}}})
+		add(&MapScen{Rel: RelSD, NKeys: 3, Init: []int{1, 1, 0}, Table: TLongChain, Threads: [][]MIn{{opRange}, {on(opDelete, 0)}}})
 		// traversal / lookups while a chain is extended by a new bucket
 		add(&MapScen{Rel: RelSD, NKeys: 3, Init: []int{0, 1, 1}, Table: TFullChain, Threads: [][]MIn{{opRange}, {on(opStore, 0)}}})
 		add(&MapScen{Rel: RelSD, NKeys: 3, Init: []int{0, 1, 1}, Table: TFullChain, Threads: [][]MIn{{opRange}, {on(opStore, 0), on(opDelete, 1)}}})
